@@ -398,6 +398,9 @@ class CatalogWriter(AbstractContextManager, HandlesDataChunk):
         buffersize:
             Optional, maximum number of records to store in the internal cache
             of each patch writer.
+        num_patches:
+            Optional, the number of patches that must receive data (patch IDs
+            ``0`` to ``num_patches - 1``), checked when finalising.
 
     Attributes:
         cache_directory:
@@ -419,6 +422,7 @@ class CatalogWriter(AbstractContextManager, HandlesDataChunk):
         "cache_directory",
         "buffersize",
         "writers",
+        "num_expected",
     )
 
     def __init__(
@@ -428,8 +432,10 @@ class CatalogWriter(AbstractContextManager, HandlesDataChunk):
         chunk_info: DataChunkInfo,
         overwrite: bool = True,
         buffersize: int = -1,
+        num_patches: int | None = None,
     ) -> None:
         self._chunk_info = chunk_info
+        self.num_expected = num_patches
         self.cache_directory = Path(cache_directory)
         cache_exists = self.cache_directory.exists()
 
@@ -525,7 +531,10 @@ class CatalogWriter(AbstractContextManager, HandlesDataChunk):
             if writer.num_processed == 0:
                 empty_patches.add(patch_id)
 
-        for patch_id in empty_patches:
+        if self.num_expected is not None:
+            empty_patches.update(set(range(self.num_expected)) - set(self.writers))
+
+        for patch_id in sorted(empty_patches):
             raise ValueError(f"patch with ID {patch_id} contains no data")
 
         patch_ids = np.fromiter(self.writers.keys(), dtype=np.int16)
@@ -579,6 +588,7 @@ def write_patches_unthreaded(
             chunk_info=reader.copy_chunk_info(drop_patch_ids=True),
             overwrite=overwrite,
             buffersize=buffersize,
+            num_patches=None if patch_centers is None else len(patch_centers),
         ) as writer:
             chunk_iter = Indicator(reader) if progress else iter(reader)
             for chunk in chunk_iter:
@@ -660,6 +670,7 @@ if parallel.use_mpi():
         chunk_info: DataChunkInfo,
         overwrite: bool = True,
         buffersize: int = -1,
+        num_patches: int | None = None,
     ) -> None:
         """A dedicated writer process that recieves a dictionary with patch IDs
         and patch data to write using a :obj:`CatalogWriter`, terminated when
@@ -670,6 +681,7 @@ if parallel.use_mpi():
             chunk_info=chunk_info,
             overwrite=overwrite,
             buffersize=buffersize,
+            num_patches=num_patches,
         ) as writer:
             while (patches := recv(source=MPI.ANY_SOURCE, tag=1)) is not EndOfQueue:
                 writer.process_patches(patches)
@@ -738,6 +750,7 @@ if parallel.use_mpi():
                 chunk_info=reader.copy_chunk_info(drop_patch_ids=True),
                 overwrite=overwrite,
                 buffersize=buffersize,
+                num_patches=None if patch_centers is None else len(patch_centers),
             )
 
         elif rank in worker_config.active_ranks:
@@ -800,6 +813,7 @@ else:
         chunk_info: DataChunkInfo = field(kw_only=True)
         overwrite: bool = field(default=True, kw_only=True)
         buffersize: int = field(default=-1, kw_only=True)
+        num_patches: int | None = field(default=None, kw_only=True)
 
         def __post_init__(self) -> None:
             self._error_recv, self._error_send = multiprocessing.Pipe(duplex=False)
@@ -825,6 +839,7 @@ else:
                     overwrite=self.overwrite,
                     chunk_info=self.chunk_info,
                     buffersize=self.buffersize,
+                    num_patches=self.num_patches,
                 ) as writer:
                     while (patches := self.patch_queue.get()) is not EndOfQueue:
                         writer.process_patches(patches)
@@ -920,6 +935,7 @@ else:
                 chunk_info=reader.copy_chunk_info(drop_patch_ids=True),
                 overwrite=overwrite,
                 buffersize=buffersize,
+                num_patches=None if patch_centers is None else len(patch_centers),
             ):
                 chunk_iter = Indicator(reader) if progress else iter(reader)
                 for chunk in chunk_iter:
